@@ -16,13 +16,23 @@ extern void mpt_node_clear(MPT_STRUCT(node) *node)
 {
 	MPT_STRUCT(node) *tmp = node->children;
 	
-	/* isolate and destroy children (recursive) */
+	node->children = 0;
+	
+	/* isolate and destroy children, sublevels are queued in front
+	 * of the remaining elements: call depth is independent of tree depth */
 	while (tmp) {
-		MPT_STRUCT(node) *next = tmp->next;
+		MPT_STRUCT(node) *next = tmp->next, *sub;
+		if ((sub = tmp->children)) {
+			MPT_STRUCT(node) *last = sub;
+			while (last->next) {
+				last = last->next;
+			}
+			last->next = next;
+			next = sub;
+			tmp->children = 0;
+		}
 		tmp->next = tmp->prev = tmp->parent = 0;
 		(void) mpt_node_destroy(tmp);
 		tmp = next;
 	}
-	node->children = 0;
 }
-
